@@ -213,7 +213,9 @@ def _level(X):
     import pandas as pd
 
     if isinstance(X, pd.DataFrame):
-        return np.array([float(np.mean(np.asarray(X.iloc[i, 0], dtype=float))) for i in range(len(X))])
+        # over ALL columns handed in, so that a wrong feature selection is visible
+        return np.array([float(np.mean([np.mean(np.asarray(X.iloc[i, j], dtype=float)) for j in range(X.shape[1])]))
+                         for i in range(len(X))])
     X = np.asarray(X, dtype=float)
     return X.reshape(X.shape[0], -1).mean(axis=1)
 
